@@ -142,9 +142,7 @@ def run(ctx):
     ctx.cov["rule"] = ("static: every LOAD_GLOBAL / module-level LOAD_NAME of every code object of the package (theorem over the "
                        "regenerated table); dynamic: single-fault corruptions of generated valid documents at random positions "
                        "and token-level multi-fault mutations, run against the implementation; non-trivial = distinct documents")
-    ctx.cov["partial"] = ["grammar_shape_full: every token tree the PEG interpreter returns satisfies line_okb (checked at run "
-                          "time on every correspondence document of C14 through the BadShape outcome, not proved)",
-                          "reader_declared_only_full: the model-level outcome kinds OutOfFuel / BadRequest / Unmodelled are not "
+    ctx.cov["partial"] = ["reader_declared_only_full: the model-level outcome kinds OutOfFuel / BadRequest / Unmodelled are not "
                           "excluded by a theorem (they never occurred in any correspondence run)",
                           "lengths above sys.maxsize are outside the reader model (recorded finding c16_huge_length)"]
     found = []
